@@ -22,9 +22,20 @@ EXPLANATION = (
     "with self._node.get_writekey(); (7) in _encrypt_rw_uri the AES-CTR key stream (everything given to "
     "create_encryptor) depends - through the package-local hash helpers, followed by parameter->return summaries - "
     "on the child's write cap (or on fresh randomness) and on the writekey, so no two children of a directory "
-    "share a key stream, and the reader-visible salt hash hands its argument to nothing but a tagged hash. "
+    "share a key stream, and the reader-visible salt hash hands its argument to nothing but a tagged hash; "
+    "(8) every call of _pack_normalized_children - and, transitively, of every function that passes its own "
+    "writekey parameter through to it (pack_children; NodeMaker.create_new_mutable_directory / "
+    "create_immutable_directory) - is keyed by None, by <node>.get_writekey() or by such a pass-through "
+    "parameter, the packers are never taken as values, and (in 6) the non-None value init_from_cap stores in "
+    "_writekey is the writekey field of its cap.  Gates written as conditional expressions ('x if c else y') "
+    "count like if statements; the truth of writekey counts as 'writekey is not None'. "
     "Undecided: that the salt keeps its 16-byte width (a truncated salt makes key streams collide),  AES/SHA-256 strength, that uri.from_string(readcap) yields a read-only cap object (C16), "
-    "CTR-mode length leak of the rw slot (ticket #925).")
+    "CTR-mode length leak of the rw slot (ticket #925); what the HMAC trailer is computed over and in which "
+    "argument order (any hash of key/cap material is treated as one-way); that writer and reader derive the same "
+    "key (argument order of mutable_rwcap_key_hash, slice widths: C19.3 / C17.6); the ro./imm. prefix "
+    "strengthening and the error branches of UnknownNode.__init__ (C16(e)); that the node whose get_writekey() "
+    "keys a packer call is the node the packed bytes are written to; refusal of non-empty rw slots and of "
+    "mutable children in immutable directories (C19).")
 TECHNIQUE = ("static analysis: CFG gate rules, def-use closures with sanitiser cuts, sibling agreement over node classes, "
              "interprocedural parameter->return dependency summaries")
 
